@@ -67,9 +67,13 @@ macro_rules! pstr_runner {
                     },
                     "upper" => match h.as_mut() {
                         Some(x) => {
+                            // the &mut str of DerefMut must be the same text as as_str(), and valid
+                            let before = x.as_str().as_bytes().to_vec();
                             let s: &mut str = &mut *x;
+                            let same = s.as_bytes() == &before[..];
+                            let valid = std::str::from_utf8(s.as_bytes()).is_ok();
                             s.make_ascii_uppercase();
-                            "U".to_string()
+                            format!("U{}{}", if valid { "" } else { "!INVALID" }, if same { "" } else { "!DEREF" })
                         }
                         None => "-".to_string(),
                     },
